@@ -35,23 +35,30 @@ def oracle(ctx, budget=1, replay=None, hints=None):
                                            for g, w in zip(got, want))
         if not ok and len(fails) < 10:
             fails.append(dict(what='parameterItems(%r) = %r, reference reading %r' % (text, got, want), signature='C19:items', case=dict(input=text)))
-    # handlers act on the last value given for each letter: tracked position after G0 with repeated words
-    for _ in range(300 * budget):
+    # handlers act on the last value given for each letter: tracked position / feed rate after G0/G1 with repeated words,
+    # valueless flags (which give no value, wherever they stand) and either letter case
+    for _ in range(600 * budget):
         n += 1
         h = impl.new_handlers([])
-        impl.run(h, ['G28'])
+        impl.run(h, ['G28', 'G1 X10 Y10 Z1 E1 F900'])
         vals = {}
         parts = []
-        for _k in range(ctx.rng.randint(1, 6)):
-            l = ctx.rng.choice('XYZE')
-            v = ctx.rng.randint(-50, 200) / 4.0
-            parts.append(ctx.rng.choice(['%s%s', '%s %s', '%s%s ']) % (l if ctx.rng.random() < 0.7 else l.lower(), v))
+        for _k in range(ctx.rng.randint(1, 7)):
+            l = ctx.rng.choice('XYZEF')
+            lt = l if ctx.rng.random() < 0.7 else l.lower()
+            if ctx.rng.random() < 0.25:
+                parts.append(lt)          # a flag: no value
+                continue
+            v = ctx.rng.randint(1, 200) / 4.0 if l == 'F' else ctx.rng.randint(-50, 200) / 4.0
+            parts.append(ctx.rng.choice(['%s%s', '%s %s', '%s%s ']) % (lt, v))
             vals[l] = v
-        cmd = 'G1 ' + ' '.join(parts)
+        cmd = ctx.rng.choice(['G1 ', 'G0 ', 'G1', 'G01 ']) + ' '.join(parts)
         impl.run(h, [cmd])
         p = h.state.position
-        cur = dict(X=p.X_AXIS.current, Y=p.Y_AXIS.current, Z=p.Z_AXIS.current, E=p.E_AXIS.current)
-        for l, v in vals.items():
+        cur = dict(X=p.X_AXIS.current, Y=p.Y_AXIS.current, Z=p.Z_AXIS.current, E=p.E_AXIS.current, F=h.state.feedRate)
+        want = dict(X=10.0, Y=10.0, Z=1.0, E=1.0, F=900.0)
+        want.update(vals)
+        for l, v in want.items():
             if cur[l] != v and len(fails) < 10:
                 fails.append(dict(what='after %r the tracked %s is %r, the last value given is %r' % (cmd, l, cur[l], v), signature='C19:last-wins', case=dict(input=cmd)))
-    return dict(evaluations=n, failures=fails, samples=[WS.spell(ctx.rng, WS.rnd_words(ctx.rng)) for _ in range(3)], distribution=dict(spelled=4000 * budget, handler=300 * budget))
+    return dict(evaluations=n, failures=fails, samples=[WS.spell(ctx.rng, WS.rnd_words(ctx.rng)) for _ in range(3)], distribution=dict(spelled=4000 * budget, handler=600 * budget))
